@@ -65,8 +65,7 @@ Lemma skel_thaw : forall st1 st2, skel st1 = skel st2 -> thaw st1 = thaw st2.
 Proof.
   intros [h1 i1] [h2 i2]. unfold skel, thaw. simpl. intros H. injection H as H1 H2. subst i2. f_equal.
   revert h2 H1. induction h1 as [|a h1 IH]; intros [|b h2] H; simpl in *; try discriminate; auto.
-  injection H as Ha Hr. f_equal; auto. unfold thaw_obj. destruct a, b. unfold skel_obj in Ha. simpl in *.
-  injection Ha as -> -> -> _. reflexivity.
+  injection H as E1 E2 E3 E4 Hr. f_equal; auto. unfold thaw_obj. now rewrite E1, E2, E3.
 Qed.
 
 Lemma skel_get : forall st1 st2 o ob1, skel st1 = skel st2 -> get st1 o = Some ob1 ->
@@ -75,7 +74,7 @@ Proof.
   intros st1 st2 o ob1 H G. unfold skel in H. injection H as H1 H2.
   unfold get in *. assert (E : nth_error (map skel_obj (heap st1)) o = Some (skel_obj ob1)) by (now apply map_nth_error).
   rewrite H1 in E. rewrite nth_error_map in E. destruct (nth_error (heap st2) o) as [ob2|]; simpl in E; [|discriminate].
-  exists ob2. split; auto. now injection E.
+  exists ob2. split; auto. injection E as E1 E2 E3 E4. unfold skel_obj. congruence.
 Qed.
 
 Lemma view_thaw : forall st o, view (thaw st) o = view st o.
@@ -85,7 +84,7 @@ Proof. intros. unfold view. rewrite get_thaw. destruct (get st o); reflexivity. 
 Lemma walk_list_ext : forall f g l, (forall kv, In kv l -> f (snd kv) = g (snd kv)) -> walk_list f l = walk_list g l.
 Proof.
   induction l as [|[k v] l IH]; intros H; simpl; auto.
-  rewrite (H (k, v)) by (now left). simpl. destruct (g v); auto. f_equal. apply IH. intros kv Hin. apply H. now right.
+  pose proof (H (k, v) (or_introl eq_refl)) as E. simpl in E. rewrite E. destruct (g v); auto. f_equal. apply IH. intros kv Hin. apply H. now right.
 Qed.
 
 Lemma walk_val_thaw : forall st n s v, walk_val (thaw st) n s v = walk_val st n s v.
